@@ -298,3 +298,27 @@ func InstrDominates(a, b ssa.Instruction) bool {
 	}
 	return ba.Dominates(bb)
 }
+
+// TransControlDeps returns the transitive closure of ControlDeps for block x.
+func (in *Info) TransControlDeps(x int) [][2]int {
+	seen := map[[2]int]bool{}
+	var out [][2]int
+	visited := map[int]bool{}
+	work := []int{x}
+	for len(work) > 0 {
+		b := work[len(work)-1]
+		work = work[:len(work)-1]
+		if visited[b] {
+			continue
+		}
+		visited[b] = true
+		for _, d := range in.ControlDeps(b) {
+			if !seen[d] {
+				seen[d] = true
+				out = append(out, d)
+			}
+			work = append(work, d[0])
+		}
+	}
+	return out
+}
